@@ -2,6 +2,7 @@ package an
 
 import (
 	"fmt"
+	"go/constant"
 	"go/token"
 	"go/types"
 	"sort"
@@ -175,8 +176,42 @@ func (p *Prog) lin(v ssa.Value, d int) Lin {
 			return p.lin(x.X, d+1).Neg()
 		case token.MUL:
 			if al := p.addrAlloc(x.X); al != nil {
-				if sts := p.storesToAlloc[al]; len(sts) == 1 {
+				sts := p.storesToAlloc[al]
+				if len(sts) == 1 {
 					return p.lin(sts[0].Val, d+1)
+				}
+				// a local variable assigned more than once: the store that reaches this read, if it is the only one
+				if at := p.linWhere(x); at != nil && len(sts) > 1 {
+					fn := at.Parent()
+					var defs []ssa.Instruction
+					same := true
+					for _, st := range sts {
+						if Host(st.Parent()) != Host(fn) {
+							same = false
+						}
+						defs = append(defs, st)
+					}
+					if same {
+						var reach []*ssa.Store
+						for i, dd := range defs {
+							var others []ssa.Instruction
+							for j, o := range defs {
+								if j != i {
+									others = append(others, o)
+								}
+							}
+							if p.PathExists(Host(fn), dd, Is(at), In(others), nil) {
+								reach = append(reach, sts[i])
+							}
+						}
+						entry := p.PathExists(Host(fn), nil, Is(at), In(defs), nil)
+						if len(reach) == 1 && !entry {
+							save := p.linAt
+							l := p.lin(reach[0].Val, d+1)
+							p.linAt = save
+							return l
+						}
+					}
 				}
 				return LinAtom("cell:" + pickName(al))
 			}
@@ -247,6 +282,13 @@ func (p *Prog) lin(v ssa.Value, d int) Lin {
 			}
 			return LinAtom("has(" + p.PathAtom(m) + ")[" + p.lin(t.Index, d+1).String() + "]" + suffix)
 		case *ssa.Call:
+			// a result of a helper that is analysed as part of this function (comma-ok style: the failing returns
+			// yield constants): the value of the returns that report success
+			if k := TransparentCallee(t); k != nil {
+				if l, ok := p.transparentResult(t, k, x.Index, d); ok {
+					return l
+				}
+			}
 			return LinAtom("call:" + p.CalleeName(&t.Call) + "#" + itoa(x.Index) + "@" + t.Name())
 		case *ssa.Next:
 			if rg, ok := t.Iter.(*ssa.Range); ok {
@@ -424,6 +466,14 @@ func (p *Prog) CondLit(cond ssa.Value, val bool) Lit {
 		if u, ok := cond.(*ssa.UnOp); ok && u.Op == token.NOT {
 			cond = u.X
 			val = !val
+			continue
+		}
+		// the boolean result of a transparent helper that returns constants: the branch inside the helper that decides it
+		if c2, neg, ok := p.boolAlias(cond); ok {
+			cond = c2
+			if neg {
+				val = !val
+			}
 			continue
 		}
 		break
@@ -987,4 +1037,125 @@ func (p *Prog) FieldAt(path string, at ssa.Instruction) Lin {
 func (p *Prog) LenAt(path string, at ssa.Instruction) Lin {
 	_, suffix := p.version(path, at, true)
 	return LinAtom("len(" + path + ")" + suffix)
+}
+
+// transparentReturns lists the returns of a transparent helper.
+func transparentReturns(k *ssa.Function) []*ssa.Return {
+	var out []*ssa.Return
+	for _, b := range k.Blocks {
+		if r, ok := b.Instrs[len(b.Instrs)-1].(*ssa.Return); ok {
+			out = append(out, r)
+		}
+	}
+	return out
+}
+
+// boolAlias: cond is the idx-th (boolean) result of a transparent helper all of whose returns yield constants there,
+// and one branch inside the helper separates the true-returns from the false-returns: cond is that branch's condition
+// (negated when neg).
+func (p *Prog) boolAlias(cond ssa.Value) (ssa.Value, bool, bool) {
+	ex, ok := cond.(*ssa.Extract)
+	var call *ssa.Call
+	idx := 0
+	if ok {
+		call, _ = ex.Tuple.(*ssa.Call)
+		idx = ex.Index
+	} else if c, isC := cond.(*ssa.Call); isC {
+		call = c
+	}
+	if call == nil {
+		return nil, false, false
+	}
+	k := TransparentCallee(call)
+	if k == nil {
+		return nil, false, false
+	}
+	var rt, rf []ssa.Instruction
+	for _, r := range transparentReturns(k) {
+		if idx >= len(r.Results) {
+			return nil, false, false
+		}
+		c, isC := r.Results[idx].(*ssa.Const)
+		if !isC || c.Value == nil || c.Value.Kind() != constant.Bool {
+			return nil, false, false
+		}
+		if constant.BoolVal(c.Value) {
+			rt = append(rt, r)
+		} else {
+			rf = append(rf, r)
+		}
+	}
+	if len(rt) == 0 || len(rf) == 0 {
+		return nil, false, false
+	}
+	for _, b := range k.Blocks {
+		ifi, isIf := b.Instrs[len(b.Instrs)-1].(*ssa.If)
+		if !isIf {
+			continue
+		}
+		for _, tsucc := range []int{0, 1} {
+			// true-returns only through edge tsucc, false-returns only through the other edge
+			cutT := func(bb *ssa.BasicBlock, i int) bool { return bb == b && i == tsucc }
+			cutF := func(bb *ssa.BasicBlock, i int) bool { return bb == b && i == 1-tsucc }
+			if !p.PathExists(k, nil, In(rt), nil, cutT) && !p.PathExists(k, nil, In(rf), nil, cutF) {
+				return ifi.Cond, tsucc == 1, true
+			}
+		}
+	}
+	return nil, false, false
+}
+
+// transparentResult: the linear form of the idx-th result of a transparent helper, taken over the returns that report
+// success (returns whose boolean sibling results are all constant false are failure exits whose other results are
+// placeholders). ok only if those returns agree.
+func (p *Prog) transparentResult(call *ssa.Call, k *ssa.Function, idx int, d int) (Lin, bool) {
+	var have bool
+	var res Lin
+	// parameters of the helper are bound to the arguments (integers through their linear forms)
+	saveF, saveA, saveAt := p.linFrame, p.linArgs, p.linAt
+	args := map[*ssa.Parameter]Lin{}
+	for kk, v := range saveA {
+		args[kk] = v
+	}
+	fr := &Frame{Fn: k, Parent: saveF}
+	for i, prm := range k.Params {
+		if i >= len(call.Call.Args) {
+			return Lin{}, false
+		}
+		fr.Params = append(fr.Params, p.Eval(saveF, call.Call.Args[i]))
+		if isIntType(prm.Type()) {
+			args[prm] = p.lin(call.Call.Args[i], d+1)
+		}
+	}
+	defer func() { p.linFrame, p.linArgs, p.linAt = saveF, saveA, saveAt }()
+	for _, r := range transparentReturns(k) {
+		if idx >= len(r.Results) {
+			return Lin{}, false
+		}
+		failure := false
+		for j, o := range r.Results {
+			if j == idx {
+				continue
+			}
+			if c, isC := o.(*ssa.Const); isC && c.Value != nil && c.Value.Kind() == constant.Bool && !constant.BoolVal(c.Value) {
+				failure = true
+			}
+		}
+		if failure {
+			if _, isC := r.Results[idx].(*ssa.Const); isC {
+				continue
+			}
+		}
+		p.linFrame, p.linArgs = fr, args
+		if saveF == nil {
+			p.linAt = call
+		}
+		l := p.lin(r.Results[idx], d+1)
+		p.linFrame, p.linArgs, p.linAt = saveF, saveA, saveAt
+		if have && !l.Equal(res) {
+			return Lin{}, false
+		}
+		res, have = l, true
+	}
+	return res, have
 }
